@@ -21,6 +21,11 @@ theorem stats_at_most_once (hb : Bool) (f : QFile) (h : (f.blocks.map (·.off)).
         exact List.Nodup.sublist (List.Sublist.map _ (List.filter_sublist)) h
       simpa [Function.comp_def] using this
 
+/-- non-vacuity: the premise of `stats_at_most_once` holds for a three-block file (one block pruned by its filters, one scanned, one dropped by the prefilter), whose plan lists two blocks -/
+example : ∃ f : QFile, (f.blocks.map (·.off)).Nodup ∧ f.blocks.length = 3 ∧
+    (filePlan true f).stats = [(0, .skipped), (40, .processed)] :=
+  ⟨⟨true, [⟨0, 5, true, false, 9⟩, ⟨40, 3, true, true, 9⟩, ⟨80, 1, false, true, 9⟩]⟩, by decide, by decide, by decide⟩
+
 /-- All or none: a file lists either none of its prefilter-surviving blocks or all of them. -/
 theorem all_or_none (hb : Bool) (f : QFile) :
     (filePlan hb f).stats = [] ∨ (filePlan hb f).stats.map (·.1) = (kept f).map (·.off) := by
@@ -59,5 +64,10 @@ theorem skipped_not_read (hb : Bool) (f : QFile) (o : Nat) (h : (o, BStat.skippe
     exact key _ hnd o' st BStat.skipped hm h
   subst this
   simp at hp
+
+/-- non-vacuity: the premises of `skipped_not_read` hold for block 0 of a three-block file with distinct offsets, while another block (40) is read -/
+example : ∃ (f : QFile) (o : Nat), (o, BStat.skipped) ∈ (filePlan true f).stats ∧ (f.blocks.map (·.off)).Nodup ∧
+    rowReads (filePlan true f) = [40] :=
+  ⟨⟨true, [⟨0, 5, true, false, 9⟩, ⟨40, 3, true, true, 9⟩, ⟨80, 1, false, true, 9⟩]⟩, 0, by decide, by decide, by decide⟩
 
 end BloomVerif.C23
